@@ -49,6 +49,17 @@ class PostDict(TraitType):
         self.default_value = {"p": 1}
 
 
+import collections
+
+# one reusable definition object (what Trait(...) returns is a CTrait) used for several attributes and classes
+SHARED_DEF = __import__("traits.api", fromlist=["Trait"]).Trait(0.5)
+
+
+class UsesSharedBefore(HasTraits):
+    """created BEFORE the class that attaches a default method and a static handler to one attribute declared with SHARED_DEF"""
+    w = SHARED_DEF
+
+
 def mk_class():
     counters = {}
 
@@ -70,6 +81,16 @@ def mk_class():
         uni_n = Union(Union(Set(Int), Str), Int)      # nested
         cust_i = InitList()
         cust_p = PostDict()
+        od = Any(collections.OrderedDict(a=1))          # dict / list SUBCLASS defaults: copied per instance like plain ones
+        cnt = Any(collections.Counter("aab"))
+        sh_x = SHARED_DEF                              # two attributes from one definition; only sh_x has a default method / handler
+        sh_y = SHARED_DEF
+
+        def _sh_x_default(self):
+            return 10.5
+
+        def _sh_x_changed(self, new):
+            self.__dict__.setdefault("_sh_calls", []).append(new)
         over = Int(1)
         log = List(Str, transient=True)
 
@@ -102,16 +123,19 @@ def mk_class():
 
 
 NAMES = ["c_int", "c_str", "l_copy", "d_copy", "lst", "dct", "st", "inst", "dyn", "lazy", "tup_c", "tup_m", "uni", "over",
-         "uni_s", "uni_d", "uni_n", "cust_i", "cust_p"]
-FRESH = {"l_copy", "d_copy", "lst", "dct", "st", "inst", "dyn", "lazy", "tup_m", "uni", "uni_s", "uni_d", "uni_n", "cust_i", "cust_p"}
+         "uni_s", "uni_d", "uni_n", "cust_i", "cust_p", "od", "cnt", "sh_x", "sh_y"]
+FRESH = {"l_copy", "d_copy", "lst", "dct", "st", "inst", "dyn", "lazy", "tup_m", "uni", "uni_s", "uni_d", "uni_n", "cust_i", "cust_p",
+         "od", "cnt"}
 EXPECT = {"c_int": 5, "c_str": "dflt", "l_copy": [1, 2], "d_copy": {"a": 1}, "lst": [1, 2, 3], "dct": {"k": 1}, "st": {1},
           "tup_c": (0, ""), "tup_m": ("", []), "uni": [], "over": 1, "lazy": [7, 8],
-          "uni_s": set(), "uni_d": {}, "uni_n": set(), "cust_i": [1], "cust_p": {"p": 1}}
+          "uni_s": set(), "uni_d": {}, "uni_n": set(), "cust_i": [1], "cust_p": {"p": 1},
+          "od": collections.OrderedDict(a=1), "cnt": collections.Counter("aab"), "sh_x": 10.5, "sh_y": 0.5}
 # a valid non-default value per kind (reset obligations)
 ASSIGN = {"c_int": lambda: 6, "c_str": lambda: "s", "l_copy": lambda: [9], "d_copy": lambda: {"z": 1}, "lst": lambda: [7],
           "dct": lambda: {"q": 2}, "st": lambda: {3}, "inst": lambda: Leaf(v=3), "dyn": lambda: ["mine"], "tup_c": lambda: (1, "a"),
           "tup_m": lambda: ("x", [1]), "uni": lambda: 3, "over": lambda: 5, "uni_s": lambda: 4, "uni_d": lambda: {"k": 1},
-          "uni_n": lambda: "s", "cust_i": lambda: [5], "cust_p": lambda: {"q": 1}}
+          "uni_n": lambda: "s", "cust_i": lambda: [5], "cust_p": lambda: {"q": 1}, "od": lambda: {"z": 2}, "cnt": lambda: {"q": 1},
+          "sh_x": lambda: 2.5, "sh_y": lambda: 3.5}
 
 
 def mutable_parts(v):
@@ -324,6 +348,12 @@ def isolation_harness(k):
         ex.check(ct._notifiers(False) in (None, []) or all("actor" not in repr(n) for n in (ct._notifiers(False) or [])),
                  "instance-level registration does not reach the class trait's notifier list")
         ex.check(Base().c_int == 5 and Base.class_traits()["c_str"].default_value()[1] == "dflt", "class-level defaults unchanged")
+        p_ = Base()
+        ex.check(p_.sh_y == 0.5 and p_.sh_x == 10.5 and UsesSharedBefore().w == 0.5,
+                 "a default method attached to one attribute does not reach other attributes / classes declared with the same definition object")
+        p_.sh_y = 4.5
+        UsesSharedBefore().w = 6.5
+        ex.check(p_.__dict__.get("_sh_calls", []) == [], "... nor does its static handler")
         return {"k": k}
     return harness
 
